@@ -732,6 +732,13 @@ Qed.
 Lemma subset_spec : forall ks cs, subset ks cs = true -> forall c, In c ks -> In c cs.
 Proof. unfold subset. intros ks cs H c Hc. rewrite forallb_forall in H. apply mem_in. auto. Qed.
 
+Lemma links_all_gen : forall (A : Type) (l : list A),
+  flat_map (fun k => match nth_error l k with Some x => [x] | None => [] end) (seq 0 (List.length l)) = l.
+Proof.
+  induction l as [|x l IH]; simpl; auto. f_equal.
+  rewrite <- seq_shift. rewrite flat_map_map_l. exact IH.
+Qed.
+
 Section Main.
   Variables (css : list (list col)) (sides : nat -> list nat) (ts : list table) (ls : list link).
   Hypothesis OK : nary_ok css sides ts ls = true.
@@ -984,4 +991,94 @@ Section Main.
       + destruct (Hrest c Hc) as [Hc' _]. rewrite sat_cons in Hs. apply andb_true_iff in Hs.
         apply (I_coh _ _ I c t Hc' Ht). tauto.
   Qed.
+
+  (* ---------- a whole plan ---------- *)
+  Lemma run_inv : forall p done cs,
+    Inv done cs -> NoDup (map fst p ++ done) -> (forall k, In k (map fst p) -> k < List.length ls) ->
+    Inv (rev (map fst p) ++ done) (fold_left (plan_step rel_join ls) p cs).
+  Proof.
+    induction p as [|[k f] p IH]; simpl; intros done cs I ND Hlt; auto.
+    assert (Hk : k < List.length ls) by (apply Hlt; auto).
+    destruct (nth_error ls k) as [l|] eqn:El; [|apply nth_error_None in El; lia].
+    inversion ND as [|? ? Hn ND']; subst.
+    rewrite <- app_assoc. simpl. apply IH.
+    - unfold plan_step. simpl. rewrite El. apply step_inv; auto.
+      intro H. apply Hn. apply in_or_app. now right.
+    - eapply Permutation_NoDup; [apply Permutation_middle | exact ND].
+    - intros k' H. apply Hlt. now right.
+  Qed.
+
+  Lemma plan_final : forall p, is_plan ls p ->
+    exists S T, run_plan_comps rel_join ts ls p = [(S, T)] /\ Inv (rev (map fst p)) [(S, T)].
+  Proof.
+    intros p P. unfold is_plan in P.
+    assert (I : Inv (rev (map fst p) ++ []) (fold_left (plan_step rel_join ls) p (init_comps ts))).
+    { apply run_inv.
+      - apply inv_init.
+      - rewrite app_nil_r. eapply Permutation_NoDup; [apply Permutation_sym; exact P | apply seq_NoDup].
+      - intros k H. assert (H' : In k (seq 0 (List.length ls))) by (eapply Permutation_in; eauto).
+        apply in_seq in H'. lia. }
+    rewrite app_nil_r in I. fold (run_plan_comps rel_join ts ls p) in I.
+    pose proof (I_len _ _ I) as HL. rewrite rev_length in HL.
+    apply Permutation_length in P. rewrite seq_length in P. rewrite P in HL.
+    destruct ok_parts as [_ [Hn _]].
+    destruct (run_plan_comps rel_join ts ls p) as [|[S T] [|c cs]] eqn:E; simpl in HL; try lia.
+    exists S, T. auto.
+  Qed.
+
+  Lemma links_of_all : forall done, Permutation done (seq 0 (List.length ls)) -> Permutation (links_of done) ls.
+  Proof.
+    intros done P. unfold links_of.
+    eapply perm_trans; [apply Permutation_flat_map; exact P|]. rewrite links_all_gen. apply Permutation_refl.
+  Qed.
+
+  (* every plan computes the canonical comprehension *)
+  Theorem run_plan_all_matches_l : forall p, is_plan ls p -> bag_eq (run_plan ts ls p) (all_matches ts ls).
+  Proof.
+    intros p P. destruct (plan_final p P) as [S [T [E I]]].
+    unfold run_plan. rewrite E. simpl.
+    pose proof (I_part _ _ I) as HS. simpl in HS. rewrite app_nil_r in HS.
+    eapply bag_eq_trans; [apply teq_bag_eq; apply Forall2_rsame_teq; apply (I_repr _ _ I (S, T)); now left|].
+    simpl fst. unfold all_matches. fold n.
+    assert (PE : Permutation (links_of (rev (map fst p))) ls).
+    { apply links_of_all. eapply perm_trans; [apply Permutation_sym; apply Permutation_rev | exact P]. }
+    rewrite (filter_ext (sat ls) (sat (links_of (rev (map fst p)))))
+      by (intro t; symmetry; apply (forallb_perm _ _ _ _ PE)).
+    apply (final_bag_eq css).
+    - now apply prod_perm.
+    - intros t Ht. split; [eapply prod_wf; eauto|].
+      rewrite (prod_keys _ _ _ Ht). eapply Permutation_NoDup; [apply Permutation_sym; exact HS | apply seq_NoDup].
+    - intros t Ht Hs. apply (I_coh _ _ I (S, T) t); auto. now left.
+  Qed.
+
+  Theorem nary_order_independent_l : forall p1 p2, is_plan ls p1 -> is_plan ls p2 ->
+    bag_eq (run_plan ts ls p1) (run_plan ts ls p2).
+  Proof.
+    intros p1 p2 P1 P2. eapply bag_eq_trans; [apply run_plan_all_matches_l; exact P1|].
+    apply bag_eq_sym. now apply run_plan_all_matches_l.
+  Qed.
+
+  (* every plan succeeds: no link is skipped, the run ends with ONE component holding all tables *)
+  Theorem plan_succeeds_l : forall p, is_plan ls p ->
+    exists S T, run_plan_comps rel_join ts ls p = [(S, T)] /\ Permutation S (seq 0 (List.length ts)).
+  Proof.
+    intros p P. destruct (plan_final p P) as [S [T [E I]]]. exists S, T. split; auto.
+    pose proof (I_part _ _ I) as HS. simpl in HS. now rewrite app_nil_r in HS.
+  Qed.
 End Main.
+
+(* ==================================================================================================== *)
+(* 11. the harness's executor is the unflipped plan *)
+
+Lemma join_in_order_run_plan : forall ts ls o, join_in_order ts ls o = run_plan ts ls (unflipped o).
+Proof.
+  intros ts ls o. unfold join_in_order, join_in_order_with, run_plan, run_plan_comps, head_table, init_comps.
+  generalize (map (fun it : nat * table => ([fst it], snd it)) (number 0 ts)). intro cs.
+  assert (H : fold_left (fun cs0 i => match nth_error ls i with Some l => apply_link rel_join cs0 l | None => cs0 end) o cs
+            = fold_left (plan_step rel_join ls) (unflipped o) cs).
+  { revert cs. induction o as [|k o IH]; simpl; intros cs; [reflexivity|]. apply IH. }
+  now rewrite H.
+Qed.
+
+Lemma is_plan_unflipped : forall ls o, Permutation o (seq 0 (List.length ls)) -> is_plan ls (unflipped o).
+Proof. intros ls o P. unfold is_plan, unflipped. rewrite map_map. simpl. now rewrite map_id. Qed.
